@@ -139,8 +139,20 @@ def stage_backrefs(ctx: Ctx):
     fams.append(('(.)(.)\\2\\1', lambda: MList(elts=[M(t=...), M(u=...), MTAG('u'), MTAG('t')])))
     fams.append(('(.)(?:.)*\\1', lambda: MList(elts=[M(t=...), MQ(..., min=0, max=None), MTAG('t')])))
     fams.append(('(.)(?:\\1)*b', lambda: MList(elts=[M(t=...), MQ(MTAG('t'), min=0, max=None), MName('b')])))
+    # a capture under a first quantifier, another quantifier, then the back-reference: the same rest of the pattern is reached again at the same element with another binding
+    for (mn1, mx1, q1), (mn2, mx2, q2) in itertools.product(((0, None, '*'), (1, None, '+'), (0, 2, '{0,2}'), (1, 3, '{1,3}')), ((0, None, '*'), (0, 1, '?'), (1, None, '+'), (0, 2, '{0,2}'))):
+        for g1, g2 in itertools.product((True, False), repeat=2):
+            def mk2(mn1=mn1, mx1=mx1, mn2=mn2, mx2=mx2, g1=g1, g2=g2):
+                c1, c2 = (MQ if g1 else MQ.NG), (MQ if g2 else MQ.NG)
+                return MList(elts=[c1(M(x=...), min=mn1, max=mx1), c2(..., min=mn2, max=mx2), MTAG('x')])
+            fams.append((f'(?:(.)){q1}{"" if g1 else "?"}.{q2}{"" if g2 else "?"}\\1', mk2))
+            def mk3(mn1=mn1, mx1=mx1, mn2=mn2, mx2=mx2, g1=g1, g2=g2):
+                c1, c2 = (MQ if g1 else MQ.NG), (MQ if g2 else MQ.NG)
+                return MList(elts=[c1([M(x=...), ...], min=mn1, max=mx1), c2(MName('a'), min=mn2, max=mx2), MTAG('x'), MQ(..., min=0, max=1)])
+            fams.append((f'(?:(.).){q1}{"" if g1 else "?"}a{q2}{"" if g2 else "?"}\\1.?', mk3))
+    n_tail = 4 + 4 * 4 * 4 * 2
     if not ctx.thorough:
-        fams = rng.sample(fams[:-4], 40) + fams[-4:]
+        fams = rng.sample(fams[:-n_tail], 40) + fams[-n_tail:-n_tail + 4] + rng.sample(fams[-n_tail + 4:], 40)
     for rxs, mk in fams:
         rxs = rxs.replace('\\\\', '\\')
         try:
@@ -415,6 +427,56 @@ def stage_search_ctx(ctx: Ctx, progs):
                                            'match_filter': [(x.src, type(x.a.ctx).__name__) for x in want][:8]})
 
 
+SEARCH_MODE_PROGS = ['x = (a + b) * (c + d)\ny = f(g(1), 2)\n', 'r = f(f(a, b), f(c))(f)\n', 'v = [[a, b], [[c], d], []]\n', 'if a + b:\n    if c + (d + e):\n        z = p + q\n',
+                     'w = a.b.c(d.e).f\n', 'def f(a=g(h(1))):\n    return f(f)\n']
+
+
+def stage_search_modes(ctx: Ctx, progs):
+    """search(pattern, on=, back=) == walk(on=, back=) filtered by match(pattern), event by event (entering and leaving), every yielded match carrying the tags match() gives
+    for THAT node: patterns whose candidates nest in each other with different outcomes and different captures"""
+    import fst
+    from fst.match import M, MNOT, MOR, MName, MCall, MBinOp, MList, MAttribute, MQSTAR
+    pats = [('MBinOp(left=M(l=Name), right=Name)', lambda: MBinOp(left=M(l=ast.Name), right=ast.Name)), ('MCall(func=M(fn=MName(f)))', lambda: MCall(func=M(fn=MName('f')))),
+            ('M(n=MBinOp)', lambda: M(n=MBinOp())), ('MCall(args=[M(first=...), MQSTAR])', lambda: MCall(args=[M(first=...), MQSTAR])), ('MList(elts=[M(e=...), MQSTAR])', lambda: MList(elts=[M(e=...), MQSTAR])),
+            ('MOR(M(c=Call), M(a=Attribute))', lambda: MOR(M(c=ast.Call), M(a=ast.Attribute))), ('M(x=expr)', lambda: M(x=ast.expr)), ('MAttribute(value=M(v=...))', lambda: MAttribute(value=M(v=...))),
+            ('MNOT(Name)', lambda: MNOT(ast.Name))]
+
+    def tags_of(m):
+        out = {}
+        for k, v in m.tags.items():
+            out[k] = ('node', id(v)) if isinstance(v, fst.FST) else ('other', repr(v)[:60])
+        return out
+    for pi, src in enumerate(SEARCH_MODE_PROGS + list(progs[:ctx.scale(3, 30)])):
+        for name, mk in pats:
+            for on in ('enter', 'leave', 'both'):
+                for back in (False, True):
+                    root = fst.FST(src, 'exec')
+                    pat = mk()
+                    rec = {'src': src, 'pattern': name, 'on': on, 'back': back}
+                    try:
+                        got = []
+                        for g in root.search(pat, on=on, back=back):
+                            m, leaving = g if on == 'both' else (g, on == 'leave')
+                            got.append((id(m.matched), leaving, tags_of(m), (type(m.matched.a).__name__, m.matched.src[:30])))
+                        want = []
+                        for g in root.walk(True, on=on, back=back):
+                            f, leaving = g if on == 'both' else (g, on == 'leave')
+                            if (m := f.match(pat)) is not None:
+                                want.append((id(f), leaving, tags_of(m), (type(f.a).__name__, f.src[:30])))
+                    except Exception as e:
+                        ctx.violation(f'search-modes-raise|{type(e).__name__}', 'search() / walk() / match() raised', {**rec, 'error': repr(e)[:200]})
+                        continue
+                    ctx.tick(('search-modes', src, name, on, back), f'search:on={on}')
+                    if [x[:2] for x in got] != [x[:2] for x in want]:
+                        ctx.violation(f'search-filter|on={on}', 'search(pattern, on=) does not yield exactly the events of walk(on=) whose node match(pattern) accepts',
+                                      {**rec, 'search': [(x[3], x[1]) for x in got][:10], 'match_filter': [(x[3], x[1]) for x in want][:10]})
+                    elif [x[2] for x in got] != [x[2] for x in want]:
+                        k = next(i for i, (x, y) in enumerate(zip(got, want)) if x[2] != y[2])
+                        ctx.violation(f'search-tags|on={on}', 'a match yielded by search() does not carry the tags match() gives for that node',
+                                      {**rec, 'node': got[k][3], 'leaving': got[k][1], 'search_tags': sorted(got[k][2]), 'match_tags': sorted(want[k][2]),
+                                       'same_keys_other_values': sorted(got[k][2]) == sorted(want[k][2])})
+
+
 def stage_structure(ctx: Ctx, progs):
     """self-match, one-leaf difference, layout independence, pure-AST agreement, statelessness"""
     import fst
@@ -665,6 +727,7 @@ def run(ctx: Ctx):
     progs = corpus(ctx.rng, gen=ctx.scale(6, 60))
     run_guarded(ctx, stage_search, progs)
     run_guarded(ctx, stage_search_ctx, progs)
+    run_guarded(ctx, stage_search_modes, progs)
     run_guarded(ctx, stage_structure, [p for p in progs if len(p) < 1200])
 
 
